@@ -32,6 +32,14 @@ from dataclasses import dataclass
 from typing import Optional, Dict, List, Any
 
 
+def decode_bool(value: Any) -> bool:
+  """Decoder for boolean configuration fields: only JSON `true` and `false` are accepted"""
+  if isinstance(value, bool):
+    return value
+
+  raise ValueError(f"Invalid boolean value '{value}'. Expect: true or false.")
+
+
 class ModuleConfiguration:
   """Base class for module configurations"""
 
